@@ -239,6 +239,10 @@ static inline void dispatch(unsigned sel) { dispatch_seq<F>(sel, std::make_integ
 // generic trampoline: Case<I>::run() -> do_case(I), do_case being defined by the harness
 static void do_case(unsigned i);
 template <unsigned I> struct Case { static __attribute__((noinline)) void run() { do_case(I); } };
+// CaseW: as Case, plus a per-case completion witness (a distinct call site per I).  Every dispatched case must complete
+// normally; a case whose paths are all cut (undefined behaviour read through an invalid pointer, non-termination within the
+// unwinding bound, ...) leaves its witness unreachable, which the driver replays natively (selector value I) and reports.
+template <unsigned I> struct CaseW { static __attribute__((noinline)) void run() { do_case(I); v_witness("case returned"); } };
 enum { CASES_PER_QUERY = 8 };
 
 // deletion modes: bit0 = deferred, bit1 = fast
